@@ -15,5 +15,6 @@ INVARIANT LawWrongMsgOnlyFillsI
 INVARIANT LawMonotoneI
 INVARIANT LawDuplicateI
 INVARIANT LawSingleI
+INVARIANT LawNotationI
 INVARIANT LawCodeRefinesI
 INVARIANT LawCodeCallsI
